@@ -68,7 +68,8 @@ def check(case):
         idx = [(base[i % len(base)] + i * (1 + i // 7)) % (2 ** n) for i in range(case["big_rows"])]
     for key, mk in obs:
         keep = space.clone()
-        vals = mk(False).apply(state, space)
+        shared = mk(False)
+        vals = shared.apply(state, space)
         require(torch.equal(space, keep), f"mutated:{key}", f"Sigma{key}.apply modified the sample array")
         require(isinstance(vals, torch.Tensor) and tuple(vals.shape) == (2 ** n,) and not vals.is_complex() and vals.dtype.is_floating_point,
                 f"shape:{key}", f"Sigma{key}.apply must return one real number per sample, got shape {tuple(vals.shape)}")
@@ -81,7 +82,10 @@ def check(case):
         av = mk(True).apply(state, space.clone())
         require(bool(torch.all((av.double() - vals.double().abs()).abs() <= 1e-12 * (1 + vals.double().abs()))), f"absolute:{key}",
                 f"Sigma{key}(absolute=True) is not the pointwise |.| of the signed per-sample values")
-        sub = mk(False).apply(state, space[idx].clone())
+        sub = shared.apply(state, space[idx].clone())                      # the same observable object: second use
+        third = shared.apply(state, space.clone())                         # ... and third use, on the full space again
+        require(bool(torch.all((third.double() - vals.double()).abs() <= 1e-12 * (1 + vals.double().abs()))), f"reuse:{key}",
+                f"the third application of the same Sigma{key} object differs from its first")
         require(tuple(sub.shape) == (len(idx),) and bool(torch.all((sub.double() - vals.double()[idx]).abs() <= 1e-9 * (1 + vals.double()[idx].abs()))),
                 f"pointwise:{key}", f"Sigma{key}.apply on a sub-batch differs from the rows of the full evaluation")
     for c in range(1, n + 1):
